@@ -20,6 +20,12 @@ def handle(job):
       rs = np.random.RandomState(seed)
       grads = [{k: jnp.asarray(np.where(rs.rand(*v.shape) < 0.3, 0.0, np.asarray(v)).astype(np.float32))
                 for k, v in g.items()} for g in grads]
+    if job.get("late"):
+      # an "unused layer": zero gradients at step 0, so with roots refreshed less often than every
+      # step its inverse roots (pseudo-inverse of a zero covariance) stay exactly zero until the next
+      # refresh while its gradients and graft steps are already non-zero
+      nm = f"p{target}"
+      grads[0] = dict(grads[0]); grads[0][nm] = jnp.zeros_like(grads[0][nm])
     main = tfrun.Runner(o, shapes, seed)
     none = tfrun.Runner(dict(o, graft="NONE"), shapes, seed)
     warm = tfrun.Runner(dict(o, Start=10 ** 6), shapes, seed)
@@ -36,8 +42,10 @@ def handle(job):
         continue
       nd, nu, nw = np.linalg.norm(d), np.linalg.norm(u), np.linalg.norm(w)
       if nd == 0.0:
+        if nw > 0.0:
+          worst["zero_direction_steps"] = worst.get("zero_direction_steps", 0) + 1
         if nu != 0.0:
-          mism.append({"clause": "zero_direction_nonzero_update", "step": t})
+          mism.append({"clause": "zero_direction_nonzero_update", "step": t, "detail": float(nu)})
         continue
       dn = abs(nu - nw) / max(nw, 1e-30)
       worst["tf_norm"] = max(worst["tf_norm"], float(dn))
